@@ -485,6 +485,14 @@ def rule_online(ctx, rep, rid):
                 rep.must_pass(rid, "is_empty.lock≺walk", g, [st], walk, lambda i: i in lks, include_start=True, what="... and takes the read-side lock before the emptiness walk")
         else:
             rep.unk(rid, "is_empty.online≺walk", "cds_lfht_is_empty: the read_ongoing() test does not steer a branch this rule recognises")
+        # ... and what it took on the caller's behalf it gives back on every way out: a result returned from inside the walk leaves the caller in a
+        # read-side section (online, for QSBR) it does not know about - its next grace-period wait (a shrinking resize, synchronize_rcu) waits for itself
+        unl = flavor_icalls(g, "read_unlock")
+        offs = flavor_icalls(g, "thread_offline")
+        if lks:
+            rep.must_pass(rid, "is_empty.lock⇒unlock", g, lks, None, lambda i: i in unl, to_exit=True, edge_ok=pat.block_edge_filter(pat.contra_edges(g, lks[0])), what="every path from the read_lock taken for the emptiness walk to a return releases it")
+        if ons:
+            rep.must_pass(rid, "is_empty.online⇒offline", g, ons, None, lambda i: i in offs, to_exit=True, edge_ok=pat.block_edge_filter(pat.contra_edges(g, ons[0])), what="every path from thread_online() to a return puts the caller offline again")
 
 
 def rule_rev(ctx, rep, rid):
